@@ -581,3 +581,28 @@ func clipB(b []byte) string {
 	}
 	return fmt.Sprintf("%q", b)
 }
+
+// faultOffset draws the byte offset of an injected read error: a third uniformly over the file, a third exactly at the
+// start of a line (nothing of the next entry has been read: only the error itself tells), a third one to three bytes
+// into a line (inside a size field, a header name, a method).
+func faultOffset(f *simrt.Stream, file []byte) int64 {
+	at := f.Draw(len(file))
+	mode := f.Draw(3)
+	if mode == 0 {
+		return int64(at)
+	}
+	var starts []int
+	for i, c := range file {
+		if c == '\n' && i+1 < len(file) {
+			starts = append(starts, i+1)
+		}
+	}
+	if len(starts) == 0 {
+		return int64(at)
+	}
+	at = starts[f.Draw(len(starts))]
+	if mode == 2 {
+		at = min(at+1+f.Draw(3), len(file)-1)
+	}
+	return int64(at)
+}
